@@ -249,6 +249,7 @@ def judge_case(case, meta):
                     open_tx.pop(o)["end"] = int(ev[2])
         elif k == "FREE":
             free_t, free_fail, free_seq = int(ev[1]), ev[2] == "1", seq
+            free_incb = len(ev) > 3 and ev[3] == "1"
             for r in reqs.values():
                 r.pending_at_free = r.ret is True and not r.cbs
             for o in list(open_tx):
@@ -280,6 +281,10 @@ def judge_case(case, meta):
                     viol("C34:unknown-query", "query for %r" % W.labels_text(labels)); continue
                 if owner == "probe":
                     st("probe_queries"); continue
+                ro = reqs.get(owner)
+                if ro is not None and (ro.cbs or ro.t_cancel is not None):
+                    st("queries_seen_after_request_end")     # written to a TCP buffer / socket before the request ended
+                    continue
                 key = (owner, qt)
                 nm = [l.lower() for l in labels]
                 cur = open_tx.get(key)
@@ -349,8 +354,13 @@ def judge_case(case, meta):
             nontrivial = True
         # --- after the base is gone only the SHUTDOWN reports of requests that were pending may run
         if after_free:
-            if free_fail and r.pending_at_free and ((kind == "resolve" and code == 68) or (kind == "gai" and code != 0)):
-                st("shutdown_reports")
+            if free_fail and r.pending_at_free:
+                # evdns_base_free(base, 1): every request that had not reported yet reports once, after the free (the reports are
+                # deferred).  Normally DNS_ERR_SHUTDOWN; a report that had already been decided keeps its own code.
+                st("shutdown_reports" if (code == 68 or kind == "gai") else "reports_decided_before_free")
+            elif free_incb and t == free_t and r.pending_at_free:
+                viol("C34:callback-after-base-free:%s:scheduled-before-free" % kind, "request %d: callback code %d ran after evdns_base_free(base,0) "
+                     "was called inside another callback at the same instant t=%d (its report had already been scheduled)" % (rid, code, t))
             else:
                 viol("C34:callback-after-base-free:%s" % kind, "request %d: callback code %d at t=%d after evdns_base_free(%d) at t=%d" %
                      (rid, code, t, 1 if free_fail else 0, free_t))
